@@ -117,24 +117,33 @@ Ltac crunch H :=
          | context [if ?b then _ else _] => destruct b; try discriminate
          end.
 
+(* the inner manager's events that RunnerCloserManager lets happen *)
+Definition lifted (ev : revt) : bool :=
+  inner_allowed ev || match ev with RCloseCh | RAddCheck _ | RAddAppend _ => true | _ => false end.
+
 Lemma step_r_returned v x ev y e :
-  r_pc x = RReturned e -> (inner_allowed ev = true \/ ev = RCloseCh) ->
+  r_pc x = RReturned e -> lifted ev = true ->
   step_r v x ev = Some y -> r_pc y = RReturned e.
 Proof.
-  intros Hpc Hal H. destruct ev; cbn in Hal; destruct Hal as [Hal|Hal]; try discriminate;
-    cbn [step_r] in H; rewrite ?Hpc in H; try discriminate; crunch H; inv H; cbn; congruence.
+  intros Hpc Hal H. destruct ev; cbn in Hal; try discriminate;
+    cbn [step_r] in H; rewrite ?Hpc in H; try discriminate; crunch H;
+    repeat match type of H with
+           | context [match ?x with _ => _ end] => destruct x; try discriminate
+           end; inv H; cbn; congruence.
 Qed.
 
 Lemma step_r_idle v bs x ev y :
   rinv v bs x -> r_pc x = RIdle -> r_running x = false ->
-  (inner_allowed ev = true \/ ev = RCloseCh) ->
+  lifted ev = true ->
   step_r v x ev = Some y -> r_pc y = RIdle /\ r_running y = false.
 Proof.
   intros I Hpc Hr Hal H. pose proof (i_noprocs _ _ _ I (or_introl Hpc)) as Hnp.
-  destruct ev; cbn in Hal; destruct Hal as [Hal|Hal]; try discriminate;
+  destruct ev; cbn in Hal; try discriminate;
     cbn [step_r] in H; rewrite ?Hpc, ?Hnp in H; try discriminate; crunch H;
     try (match goal with E : nth_error [] ?i = Some _ |- _ => destruct i; discriminate end);
-    inv H; cbn; auto.
+    repeat match type of H with
+           | context [match ?x with _ => _ end] => destruct x; try discriminate
+           end; inv H; cbn; auto.
 Qed.
 
 (* ------------------------------------------------------------------------------------------ *)
@@ -191,8 +200,8 @@ Qed.
 
 Ltac cfin :=
   cbn [inner c_running c_closing c_stopped closers c_pc c_procs fch_closed timer_fired fired_early
-       fatal_count tie reterr addcl closes run_rejected w_inner w_pc w_procs w_addcl w_closes
-       closing_pc done_pc];
+       fatal_count tie reterr addcl closes run_rejected cadds w_inner w_pc w_procs w_addcl w_closes
+       w_cadds closing_pc done_pc];
   try assumption; try discriminate; try (intros; discriminate); auto;
   try (let Hx := fresh in intros Hx; exfalso; exact Hx);
   try (let Hx := fresh in intros Hx; exfalso; apply Hx; exact I);
@@ -258,10 +267,13 @@ Proof.
     constructor; cfin.
     + eapply rinv_step; eauto.
     + intro Hpc. destruct (Iidle Hpc). eapply step_r_idle with (ev := e); eauto.
+      unfold lifted; rewrite Eal; reflexivity.
     + intros n i errs Hpc. destruct (Icoll n i errs Hpc) as [? [? [rerrs [Hr HP]]]].
       repeat split; auto. exists rerrs. split; auto. eapply step_r_returned with (ev := e); eauto.
+      unfold lifted; rewrite Eal; reflexivity.
     + intros errs Hpc. destruct (Idn errs Hpc) as [? [rerrs [Hr HP]]].
       split; auto. exists rerrs. split; auto. eapply step_r_returned with (ev := e); eauto.
+      unfold lifted; rewrite Eal; reflexivity.
   - (* CClosing *)
     destruct (c_pc s) eqn:Epc; try discriminate.
     destruct (r_pc (inner s)) as [| | |rerrs] eqn:Eipc; try discriminate. inv H.
@@ -437,6 +449,33 @@ Proof.
         { rewrite (nth_error_upd_same _ _ _ _ Ea) in Ha. inv Ha. lia. }
         rewrite nth_error_upd_other in Ha by auto. apply Iacc in Ha. lia.
       * intros Hg c Hc. apply in_app_or in Hc. destruct Hc as [Hc|[<-|[]]]; [eauto | reflexivity].
+  - (* CAddCheck *)
+    destruct (c_running s) eqn:Er.
+    + inv H. constructor; cfin.
+    + destruct (step_r v (inner s) (RAddCheck b)) as [x|] eqn:Ex; inv H.
+      constructor; cfin.
+      * eapply rinv_step; eauto.
+      * intro Hpc. exfalso. apply Hpc. apply (Inot eq_refl).
+      * intro Hpc. destruct (Iidle Hpc). eapply step_r_idle with (ev := RAddCheck b); eauto.
+      * intros n i errs Hpc. destruct (Icoll n i errs Hpc) as [? [? [rerrs [Hr HP]]]].
+        repeat split; auto. exists rerrs. split; auto.
+        eapply step_r_returned with (ev := RAddCheck b); eauto.
+      * intros errs Hpc. destruct (Idn errs Hpc) as [? [rerrs [Hr HP]]].
+        split; auto. exists rerrs. split; auto.
+        eapply step_r_returned with (ev := RAddCheck b); eauto.
+  - (* CAddAppend *)
+    destruct (nth_error (cadds s) k) as [[|a]|] eqn:Ek; try discriminate.
+    destruct (lock_held s) eqn:El; try discriminate.
+    destruct (step_r v (inner s) (RAddAppend a)) as [x|] eqn:Ex; inv H.
+    constructor; cfin.
+    + eapply rinv_step; eauto.
+    + intro Hpc. destruct (Iidle Hpc). eapply step_r_idle with (ev := RAddAppend a); eauto.
+    + intros n i errs Hpc. destruct (Icoll n i errs Hpc) as [? [? [rerrs [Hr HP]]]].
+      repeat split; auto. exists rerrs. split; auto.
+      eapply step_r_returned with (ev := RAddAppend a); eauto.
+    + intros errs Hpc. destruct (Idn errs Hpc) as [? [rerrs [Hr HP]]].
+      split; auto. exists rerrs. split; auto.
+      eapply step_r_returned with (ev := RAddAppend a); eauto.
 Qed.
 
 Lemma cinv_run v grace bs es : forall s s',
